@@ -99,7 +99,7 @@ def _task(args):
                     f.setdefault("config", cfg)
                     failures.append(f)
             if len(samples) < 2 and sig is not None:
-                samples.append({"config": cfg, "src": doc[:80]})
+                samples.append({"config": cfg, "case": doc[:80] if isinstance(doc, str) else repr(doc)[:160]})
     return {"evals": evals, "skipped": skipped, "sigs": sigs, "failures": failures, "samples": samples}
 
 
